@@ -129,3 +129,29 @@ def analyse(seqs, k, prefix):
 	if k > 16:
 		classes.add('k>16')
 	return classes
+
+
+SPEC_SPELLINGS = 8
+
+
+def spell_spec(KmerSpec, k, prefix, how):
+	"""The same k-mer specification reached in different legal ways (prefix case / type, k as a NumPy integer, copies)."""
+	how = how % SPEC_SPELLINGS
+	if how == 0:
+		return KmerSpec(k, prefix.upper())
+	if how == 1:
+		return KmerSpec(k, prefix.lower())
+	if how == 2:
+		return KmerSpec(k, ''.join(c.lower() if i % 2 else c.upper() for i, c in enumerate(prefix)))
+	if how == 3:
+		return KmerSpec(k, prefix.upper().encode())
+	if how == 4:
+		return KmerSpec(k, bytearray(prefix.lower().encode()))
+	if how == 5:
+		import pickle
+		return pickle.loads(pickle.dumps(KmerSpec(k, prefix.lower())))
+	if how == 6:
+		import numpy as np
+		return KmerSpec(np.int64(k), prefix)
+	from Bio.Seq import Seq
+	return KmerSpec(k, Seq(prefix.lower()))
